@@ -114,7 +114,7 @@ func (s *Store) HasMulti(ctx context.Context, m storage.ModeHas, addrs ...boson.
 }
 
 func (s *Store) Set(context.Context, storage.ModeSet, ...boson.Address) error { return nil }
-func (s *Store) Close() error                                                  { return nil }
+func (s *Store) Close() error                                                 { return nil }
 
 // Puts returns the recorded Put calls.
 func (s *Store) Puts() []PutRec {
@@ -186,14 +186,14 @@ func (c *ChunkInfo) CancelFindChunkInfo(boson.Address)                          
 func (c *ChunkInfo) OnChunkTransferred(boson.Address, boson.Address, boson.Address, boson.Address) error {
 	return nil
 }
-func (c *ChunkInfo) Init(context.Context, []byte, boson.Address) bool          { return true }
+func (c *ChunkInfo) Init(context.Context, []byte, boson.Address) bool         { return true }
 func (c *ChunkInfo) GetChunkPyramid(boson.Address) []*chunkinfo.PyramidCidNum { return nil }
 func (c *ChunkInfo) IsDiscover(boson.Address) bool                            { return false }
 func (c *ChunkInfo) GetFileList(boson.Address) ([]map[string]interface{}, []boson.Address) {
 	return nil, nil
 }
 func (c *ChunkInfo) DelFile(boson.Address, func() error) error { return nil }
-func (c *ChunkInfo) DelDiscover(boson.Address)                {}
+func (c *ChunkInfo) DelDiscover(boson.Address)                 {}
 func (c *ChunkInfo) OnChunkRetrieved(boson.Address, boson.Address, boson.Address) error {
 	return nil
 }
@@ -212,10 +212,10 @@ type Chain struct {
 	Nodes []boson.Address
 }
 
-func (c *Chain) GetCid(string) []byte                                                  { return nil }
-func (c *Chain) GetNodesFromCid([]byte) []boson.Address                                { return c.Nodes }
-func (c *Chain) GetSourceNodes(string) []boson.Address                                 { return nil }
-func (c *Chain) OnStoreMatched(boson.Address, uint64, uint64, boson.Address)           {}
+func (c *Chain) GetCid(string) []byte                                                            { return nil }
+func (c *Chain) GetNodesFromCid([]byte) []boson.Address                                          { return c.Nodes }
+func (c *Chain) GetSourceNodes(string) []boson.Address                                           { return nil }
+func (c *Chain) OnStoreMatched(boson.Address, uint64, uint64, boson.Address)                     {}
 func (c *Chain) DataStoreFinished(boson.Address, uint64, uint64, []byte, chan chain.ChainResult) {}
 func (c *Chain) RegisterCidAndNode(context.Context, boson.Address, boson.Address) (common.Hash, error) {
 	return common.Hash{}, nil
@@ -274,8 +274,8 @@ func (Discovery) BroadcastPeers(context.Context, boson.Address, ...boson.Address
 func (Discovery) DoFindNode(context.Context, boson.Address, boson.Address, []int32, int32) (chan boson.Address, error) {
 	return nil, errors.New("pbench: no discovery")
 }
-func (Discovery) IsStart() bool                        { return false }
-func (Discovery) IsHive2() bool                        { return true }
+func (Discovery) IsStart() bool                       { return false }
+func (Discovery) IsHive2() bool                       { return true }
 func (Discovery) NotifyDiscoverWork(...boson.Address) {}
 
 // P2P is a stub p2p.Service. CallHandler does what the libp2p host does for the relay
